@@ -60,6 +60,10 @@ func (d *Decoder) read(buf []byte) {
 	if d.err != nil {
 		return
 	}
+	if len(buf) == 0 {
+		// nothing to read. bytes.Reader returns io.EOF for an empty read at the end of data, but it's not an error
+		return
+	}
 
 	n, err := d.buf.Read(buf)
 	if err != nil {
